@@ -237,6 +237,18 @@ def fresh_symbol(model: RefDir, prefix, n, r):
         code = ISO_CODES[r // 24 % len(ISO_CODES)]
         if code not in model.units:
             return code
+    if k == 10 and model.uorder:
+        # the ASCII spelling of an existing symbol with special characters
+        # (m2 next to m², kg*m next to kg·m): a symbol of its own
+        tr = str.maketrans({'²': '2', '³': '3', '⁴': '4', '¹': '1',
+                            '⁰': '0', '⁻': '-', '·': '*', 'µ': 'u',
+                            '°': 'deg'})
+        for off in range(len(model.uorder)):
+            cand = model.uorder[(r + off) % len(model.uorder)]
+            twin = cand.translate(tr)
+            if twin != cand and twin not in model.units and twin.strip() \
+                    and twin == twin.strip():
+                return twin
     if k == 6 and model.uorder:
         # differs from an existing symbol only by case
         other = model.uorder[r % len(model.uorder)].swapcase()
